@@ -480,6 +480,15 @@ func (g *Gen) backEdge(li *loopInfo, cond string, pos token.Pos) {
 // ---------- instructions ----------
 
 func (g *Gen) instr(ins ssa.Instruction) {
+	// ghost statements attached to the start of a loop body (first block entered from the header inside the loop)
+	if len(g.ct.Ats) > 0 && ins == firstNonPhi(ins.Block()) {
+		b := ins.Block()
+		for _, p := range b.Preds {
+			if li := g.loops[p]; li != nil && li.body[b] && len(p.Succs) == 2 && p.Succs[0] == b {
+				g.atLoopBody(li, ins)
+			}
+		}
+	}
 	switch x := ins.(type) {
 	case *ssa.DebugRef:
 		return
@@ -1365,6 +1374,7 @@ func (g *Gen) pointEnv(at ssa.Instruction) *Env {
 	env.nextobj = g.nextobj
 	env.ghost = g.ghost
 	env.resolve = func(name string) *Val { return g.resolveBefore(at, name) }
+	g.dropAddressTakenParams(env)
 	return env
 }
 
@@ -1479,4 +1489,60 @@ func (g *Gen) allocNamed(b *ssa.BasicBlock, at ssa.Instruction, name string) *Va
 	v := g.val(best)
 	elem := best.Type().Underlying().(*types.Pointer).Elem()
 	return g.loadFrom(g.heap, elem, v.S[0], v.S[1])
+}
+
+func firstNonPhi(b *ssa.BasicBlock) ssa.Instruction {
+	for _, i := range b.Instrs {
+		if _, ok := i.(*ssa.Phi); !ok {
+			return i
+		}
+	}
+	return nil
+}
+
+// atLoopBody runs "at loopbody K" ghost statements; names resolve as in the loop invariant of loop K.
+func (g *Gen) atLoopBody(li *loopInfo, at ssa.Instruction) {
+	for _, as := range g.ct.Ats {
+		if as.PointKind != "loopbody" || as.Ordinal != li.ordinal {
+			continue
+		}
+		as.Used = true
+		phis := map[string]*Val{}
+		for _, ins := range li.header.Instrs {
+			phi, ok := ins.(*ssa.Phi)
+			if !ok {
+				break
+			}
+			if phi.Comment != "" {
+				phis[phi.Comment] = g.val(phi)
+			}
+		}
+		env := g.loopEnv(li, phis)
+		switch as.Kind {
+		case "assert":
+			env.goal = true
+			t := g.specBool(env, as.C.E)
+			o := g.obligeNamed(fmt.Sprintf("%s#%s", g.unit, as.C.Name), "assert", t, at.Pos(), "ghost assertion: "+as.C.Text, as.C.Props)
+			g.applyUsing(o, as.C)
+			if as.C.Label != "" {
+				g.facts[as.C.Label] = fmt.Sprintf("(=> %s %s)", g.reach, t)
+			}
+		case "ghost":
+			v := g.specVal(env, as.C.E)
+			if v != nil {
+				nv := *v
+				nv.S = nil
+				for i, t := range v.S {
+					srt := "Int"
+					if v.Sort == "Bool" || v.Sort == "Fp" || v.Sort == "Fr" || v.Sort == "Bytes" || v.Sort == "G" {
+						srt = v.Sort
+					} else if v.Agg && v.T != nil {
+						srt = g.lay.Cells(v.T)[i].Sort
+					}
+					nv.S = append(nv.S, g.def("gh_"+as.Name, srt, t))
+				}
+				g.lets[as.Name] = &nv
+			}
+		}
+	}
 }
